@@ -182,6 +182,10 @@ FREE.append(dict(src="package a\n\nimport \"net/url\"\n\nfunc f() {\n\t_ = url.P
                           "@ c2 @\n@@\n-import \"net/url\"\n\n-url.Parse\n+parse\n"]))
 
 
+FREE.append(dict(src="package a\n\nimport (\n\t\"fmt\"\n\t\"os\"\n)\n\n// Doc of B.\nfunc B() {\n\tx := foo(1, /* two */ 2)\n\tfmt.Println(x, os.Args)\n}\n",
+                 changes=["@ c1 @\n@@\n-foo(1, 2)\n+baz\n", "@ c2 @\n@@\n-import \"os\"\n\n-os.Args\n+nil\n"]))
+
+
 def scenario(sid, files, args, stdin="", meta=None):
     return dict(id=sid, files=files, dirs=[], symlinks=[], args=args, stdin=stdin, cwd="", strace=False, meta=meta or {}, timeout_ms=20000)
 
